@@ -18,6 +18,7 @@ import (
 	"strings"
 	"syscall"
 	"time"
+	"unicode/utf8"
 
 	vs "github.com/trzsz/trzsz-go/zzverif/vsched"
 )
@@ -50,7 +51,10 @@ type wParams struct {
 	Probe     bool         `json:"probe,omitempty"`     // after the transfer, check that the session passes bytes through again
 	RawClient bool         `json:"rawclient,omitempty"` // uploads: raw sending client built from product functions instead of the filter
 	FdLimit   int          `json:"fdlimit,omitempty"`   // RLIMIT_NOFILE during the execution (0 = unchanged)
-	HashStep  int64        `json:"hash_step,omitempty"` // >0: the prefix-hash block for this run (rule R11), default the real 10 MiB
+	// ServerNoListen: in a world with tunnel connectors, this transfer's server could not open its listener
+	// (listenForTunnel returned nothing): the transfer runs in-band. Also honoured per follow-up transfer.
+	ServerNoListen bool  `json:"server_no_listen,omitempty"`
+	HashStep       int64 `json:"hash_step,omitempty"` // >0: the prefix-hash block for this run (rule R11), default the real 10 MiB
 
 	DstRoot string `json:"dstroot,omitempty"` // use (and keep) this destination directory instead of a fresh one
 
@@ -173,7 +177,7 @@ type wLocalFault struct {
 	Side string `json:"side"` // "client" | "server" (the side whose thread makes the call)
 	Hook string `json:"hook"` // fileWrite | fileRead | archiveRead | archiveWrite
 	K    int    `json:"k"`
-	Kind string `json:"kind"` // "err" (the call fails) | "shrink" (the source file is truncated on disk just before the call)
+	Kind string `json:"kind"` // "err" (the call fails) | "shrink" (the source file is truncated on disk just before the call) | "slow" (the call takes 1 s)
 }
 
 // wFault is one byte-level fault at an absolute offset of one direction of the connection.
@@ -276,6 +280,14 @@ func genContent(kind byte, seed, n int) []byte {
 		for i := range b {
 			b[i] = pat[i%len(pat)]
 		}
+	case 'U': // well-formed UTF-8 text whose multi-byte characters contain the 8-bit protected bytes and the escape leader
+		pat := []byte(fmt.Sprintf("Привет, Наташа! Ñandú Ññ \ue0b0 \u008d\u0090\u0091\u0093\u009d строка %d\n", seed))
+		for i := range b {
+			b[i] = pat[i%len(pat)]
+		}
+		for k := len(b); k > 0 && !utf8.Valid(b); k-- { // do not end inside a character
+			b[k-1] = '.'
+		}
 	case 'E': // every byte value, heavy on the ones the escape tables care about
 		pat := []byte{0xee, 0x7e, 0x0d, 0x10, 0x11, 0x13, 0x18, 0x1b, 0x1d, 0x8d, 0x90, 0x91, 0x93, 0x9d, 0x02, 0xee, 0xee, 0x31, 0x41, 0x00, 0xff, '\n', '!'}
 		for i := range b {
@@ -346,6 +358,11 @@ func treeRecipe(name string) (entries []treeEntry, tops []string) {
 		file("p1/same.txt", 'T', 10, 500)
 		file("p2/same.txt", 'R', 11, 800)
 		tops = []string{"p1/same.txt", "p2/same.txt"}
+	case name == "prefixnames": // names that are string prefixes of one another
+		file("lib", 'T', 13, 700)
+		file("lib64", 'R', 14, 1500)
+		file("lib64.bak", 'E', 15, 400)
+		tops = []string{"lib", "lib64", "lib64.bak"}
 	case strings.HasPrefix(name, "longname:"): // one file whose name is n bytes long
 		fmt.Sscanf(name[9:], "%d", &size)
 		n := strings.Repeat("L", size)
@@ -456,6 +473,7 @@ func snapDiff(want, got map[string]string) string {
 
 type world struct {
 	p        wParams
+	localN   int    // how often the hook named by p.Local was reached on that side
 	root     string // scratch root of this execution
 	srcRoot  string
 	dstRoot  string
@@ -749,7 +767,13 @@ func buildWorld(p wParams) *world {
 				return nil
 			}
 			n++
+			w.localN = n
 			if n != lf.K {
+				return nil
+			}
+			if lf.Kind == "slow" {
+				// a slow disk: this one call takes a second (of virtual time)
+				vs.Sleep(time.Second)
 				return nil
 			}
 			if lf.Kind == "shrink" {
@@ -848,7 +872,7 @@ func (w *world) startServer() {
 	tmuxMode, tmuxPaneWidth := tmuxModeType(noTmuxMode), int32(-1)
 	transfer := newTransfer(srvOut, nil, false, nil)
 	w.srvTransfer = transfer
-	if w.p.Tunnel {
+	if w.p.Tunnel && !w.p.ServerNoListen {
 		// TrzMain/TszMain: listener, port := listenForTunnel(); transfer.acceptOnTunnel(listener, id, port)
 		var listener net.Listener
 		listener, port = listenForTunnel()
@@ -1134,6 +1158,7 @@ func (w *world) nextTransfer(st wParams, k int) {
 	base := w.p
 	base.Dir, base.Tree, base.Directory, base.Overwrite, base.Kind = st.Dir, st.Tree, st.Directory, st.Overwrite, st.Kind
 	base.Local, base.Stop, base.Pauses, base.DstPre, base.Then = st.Local, st.Stop, nil, "", nil
+	base.ServerNoListen = st.ServerNoListen
 	if base.Stop != nil {
 		cp := *base.Stop
 		cp.Step += vs.StepNow() // relative to the beginning of this transfer
